@@ -128,11 +128,30 @@ def repo_head():
 _MODULE = None
 
 
+def _library_frames(tb):
+    repo = os.path.realpath(os.environ.get("VERIF_REPO", "/repo")) + "/"
+    return [f for f in traceback.extract_tb(tb) if os.path.realpath(f.filename).startswith(repo)]
+
+
 def _worker(unit):
     try:
         return _MODULE.run_unit(unit)
-    except BaseException:
+    except BaseException as e:
+        # An exception that escaped from (or through) library code on an in-scope input is a verdict about the
+        # library - "the call did not do what the property says" - not a defect of the machinery.  Everything
+        # else (exceptions raised purely inside /verif, TapeError) is a harness error.
+        lib = _library_frames(e.__traceback__)
+        if lib and type(e).__name__ != "TapeError" and isinstance(e, Exception):
+            where = "%s:%d in %s" % (os.path.basename(lib[-1].filename), lib[-1].lineno, lib[-1].name)
+            return {"states": 1, "transitions": 1, "nfail": 1,
+                    "failures": [{"kind": "unit-crash", "case": unit, "sig": "uncaught-library-exception:%s" % type(e).__name__,
+                                  "msg": "library code raised %r at %s while exploring work unit %s" % (e, where, dumps(unit)[:300])}]}
         return {"harness_error": traceback.format_exc(), "unit": unit}
+
+
+def _replay_unit_crash(mod, unit):
+    r = _worker(unit)
+    return [(f["sig"], f["msg"]) for f in r.get("failures", []) if f["kind"] == "unit-crash"]
 
 
 def load_findings():
@@ -156,7 +175,7 @@ def write_evidence(pid, ev):
 def do_replay(mod, path):
     with open(path) as fh:
         rec = json.load(fh)
-    fails = mod.replay(rec["kind"], rec["case"])
+    fails = _replay_unit_crash(mod, rec["case"]) if rec["kind"] == "unit-crash" else mod.replay(rec["kind"], rec["case"])
     print("replay %s kind=%s" % (path, rec["kind"]))
     print("case: " + dumps(rec["case"])[:4000])
     print("recorded: [%s] %s" % (rec.get("sig"), rec.get("msg")))
@@ -261,7 +280,7 @@ def main(argv=None):
             continue
         if len(confirmed) >= 4 * MAX_REPORTED:
             continue
-        again = mod.replay(f["kind"], f["case"])
+        again = _replay_unit_crash(mod, f["case"]) if f["kind"] == "unit-crash" else mod.replay(f["kind"], f["case"])
         if again:
             confirmed.append((key, f))
         else:
